@@ -227,7 +227,7 @@ def run(tier):
                        "unbounded liveness is restated as: by horizon + 2 ticks + 3 idle ticks every still-active atom has been started and ended",
                        "execution_exception is a reported outcome: the history stops there"]
     exes = {v: build.driver(v, "exec_drv", libs=("executor", "solver", "core", "riddle", "smt", "json")) for v in ("dbg", "rel")}
-    total = 1600 if tier == "quick" else 6000
+    total = 1600 if tier == "quick" else 20000
     per = 20
     for fam in ("sv", "rr", "tl", "sync", "task"):
         common.pmap(work, [(exes, fam, s, per) for s in range(0, total, per)], res)
